@@ -33,7 +33,18 @@ pub fn mbox(args: &[&str]) -> Option<Vec<String>> {
     };
     let serde = match std::panic::catch_unwind(|| serde_json::to_string(&m)) {
         Ok(Ok(js)) => match serde_json::from_str::<Mailbox>(&js) {
-            Ok(b) => format!("ok:{}", show_mb(&b)),
+            Ok(b) => {
+                // the object form `{"name": .., "email": ..}` is a second way in: it gives the very same mailbox (name verbatim)
+                let obj = match &m.name {
+                    Some(n) => serde_json::json!({"name": n, "email": m.email.to_string()}),
+                    None => serde_json::json!({"email": m.email.to_string()}),
+                };
+                match serde_json::from_value::<Mailbox>(obj) {
+                    Ok(o) if o == m => format!("ok:{}", show_mb(&b)),
+                    Ok(o) => format!("objdiff:{}", show_mb(&o)),
+                    Err(_) => "objerr".to_string(),
+                }
+            }
             Err(_) => "err".to_string(),
         },
         Ok(Err(_)) => "sererr".to_string(),
